@@ -39,7 +39,9 @@ TGrid == Ev("Grid") /\ LET ev == Log[l] IN Judge(
 TEdge == Ev("Edge") /\ Judge(Log[l].ok)
 TQuantile == Ev("Quantile") /\ Judge(Log[l].ok)
 TKDE == Ev("KDE") /\ LET ev == Log[l] IN Judge(ev.nonneg /\ ev.intq <= 1)
-Next == TBinom \/ TPois \/ TPoisSum \/ TInvPois \/ TLik \/ TGrid \/ TEdge \/ TQuantile \/ TKDE
+\* far tails (levels down to 1e-11 on either side, counts below 100): the level reached is the requested one to 1e-4 of the tail probability
+TInvPoisTail == Ev("InvPoisTail") /\ LET ev == Log[l] IN Judge(ev.side \in {0, 1} /\ ev.fin /\ ev.q <= 1)
+Next == TBinom \/ TPois \/ TPoisSum \/ TInvPois \/ TInvPoisTail \/ TLik \/ TGrid \/ TEdge \/ TQuantile \/ TKDE
 Spec == Init /\ [][Next]_l
 TraceAccepted == /\ TLCGet("stats").diameter - 1 = Len(Log)
                  /\ PrintT(<<"REJECTED-EVENTS", TLCGet(7)>>)
